@@ -564,7 +564,7 @@ func gen(r *hx.Rand, tier string) []json.RawMessage {
 	add := func(in input) { out = append(out, hx.J(in)) }
 	nSeq, nConc := 70, 10
 	if tier == "thorough" {
-		nSeq, nConc = 900, 80
+		nSeq, nConc = 450, 40
 	}
 	// directed: the confirmed value-domain defects
 	add(input{Tables: []string{"A"}, Batch: 2, Ops: []opIn{{Op: "ins", V: Vals{I: []int64{1}, U: []uint64{1 << 63}, S: []string{"x", "l"}}}}})
